@@ -11,12 +11,14 @@ V: key derivation and signing for seeded seeds / message lengths 0..2000
    GenerateKey of both implementations on identical failing reader scripts.
    Trace_SigForks requires identical verdicts / bytes / reader consumption."""
 import vlib
+from checks import verdicts_common as vc
 from checks import sigforks_common as sc
 
 
 def run(ctx):
     ctx.model_check("Entropy", "MC_Entropy.cfg", workers=2)
     n, cases, kinds = sc.run(ctx, "ed25519")
+    vn, vcases, vdepth = vc.run(ctx, ["ed25519"])   # Verdicts.tla: every history of presentations
     return ctx.finish({
         "traces_validated_against_impl": n,
         "evaluations": len(cases),
@@ -24,6 +26,7 @@ def run(ctx):
         "rule": "a case is one seed through key derivation, one (seed, message) through signing, one (key bytes, signature bytes, "
                 "message) through both verifiers, or one reader script through both GenerateKey; distinct = distinct inputs",
         "cases_by_kind": kinds,
+        **vc.coverage(vn, vcases, vdepth),
         "samples": [vlib.trim(c, 24) for c in vlib.sample(cases, 4)],
         "exhaustive": False,
     }, [
@@ -34,4 +37,6 @@ def run(ctx):
 
 
 def replay(ctx, path):
+    if vlib.json.load(open(path)).get("family") == "verdicts":
+        return vc.replay(ctx, path)
     return ctx.replay_case(path, "sigforks", "Trace_SigForks")
